@@ -13,6 +13,7 @@ def main(argv=None):
     ap.add_argument("--replay")
     ap.add_argument("--limit", type=int)
     ap.add_argument("--workers", type=int)
+    ap.add_argument("--recheck", type=int)
     a = ap.parse_args(argv)
     if os.environ.get("PYTHONHASHSEED") != "0" or "PV_REEXEC" not in os.environ:
         # fixed hash seed for every worker; re-exec once so the interpreter itself honours it
@@ -22,6 +23,8 @@ def main(argv=None):
     modname = f"pv.checks.{a.prop.lower()}"
     if a.replay:
         return runner.replay(modname, a.replay)
+    if a.recheck:
+        return runner.recheck(modname, a.tier, a.recheck)
     seed = int(os.environ.get("VERIF_SEED", "0") or 0)
     return runner.run(modname, a.tier, seed, a.workers, a.limit)
 
